@@ -8,7 +8,9 @@ use bumpalo::{collections, Bump};
 use codespan_reporting::diagnostic::Diagnostic;
 use laythe_core::{
   hooks::GcHooks,
-  object::{Fun, FunBuilder}, Chunk,
+  object::{Fun, FunBuilder},
+  signature::Arity,
+  Chunk,
 };
 use std::{cell::RefCell, rc::Rc};
 
@@ -328,10 +330,16 @@ fn label_count(instructions: &[SymbolicByteCode]) -> usize {
 fn apply_stack_effects(fun_builder: &mut FunBuilder, instructions: &mut [SymbolicByteCode]) {
   let mut slots: i32 = 1;
 
+  // parameters sit between the callee slot and the first local
+  // but are not part of the simulated depth
+  let parameters = match fun_builder.arity() {
+    Arity::Fixed(count) | Arity::Variadic(count) | Arity::Default(count, _) => *count as i32,
+  };
+
   for instruction in instructions {
     if let SymbolicByteCode::PushHandler((_, label)) = instruction {
       // TODO handle to many slots
-      *instruction = SymbolicByteCode::PushHandler((slots as u16, *label))
+      *instruction = SymbolicByteCode::PushHandler(((slots + parameters) as u16, *label))
     }
 
     slots += instruction.stack_effect();
